@@ -42,6 +42,9 @@ class SimpleTree(prototype.tree):
         return tuple(self.cpv_dict[cp_key[0]][cp_key[1]])
 
     def notify_remove_package(self, pkg):
+        # update the listing caches first: they read this repo's listings, which
+        # must still know the package (and its category) at that point
+        super().notify_remove_package(pkg)
         vers = self.cpv_dict[pkg.category][pkg.package]
         vers = [x for x in vers if x != pkg.fullver]
         if vers:
@@ -50,7 +53,6 @@ class SimpleTree(prototype.tree):
             del self.cpv_dict[pkg.category][pkg.package]
             if not self.cpv_dict[pkg.category]:
                 del self.cpv_dict[pkg.category]
-        super().notify_remove_package(pkg)
 
     def notify_add_package(self, pkg):
         self.cpv_dict.setdefault(pkg.category, {}).setdefault(pkg.package, []).append(
